@@ -71,6 +71,7 @@ def gen_cases(tier, seed):
 
 def make_requests(rng, tree, client, n, xtalk=False):
     lv = SH.leaves(tree)
+    sw = SH.has_switch(tree)
     reqs = []
     for s in range(n):
         if xtalk:
@@ -88,6 +89,8 @@ def make_requests(rng, tree, client, n, xtalk=False):
             plan.append((leaf[1], 'reject', None))
         if rng.random() < 0.25:
             plan.append((rng.choice(lv)[1], 'sleep', rng.choice([0.0005, 0.002, 0.008])))
+        if sw and rng.random() < 0.06:
+            plan.append(('SW', rng.choice(['unroutable', 'unroutable', 'badindex']), None))  # the user's switch() fails for this input
         deadline = 30
         if rng.random() < 0.06:
             deadline = rng.choice([0.0005, 0.003, 0.02])
